@@ -583,6 +583,15 @@ def run_batch(args):
                              f"of the model: {first[:200]}",
                         replay=dict(kind="load-scenario", rule=rname, document=doc, impl_output=w[:1500],
                                     model_output=g[:1500])))
+        # the top-level entry point hands its mode flags to the environment it builds around the loaded scenario
+        if first_valid_sc is not None:
+            fpath = os.path.join(tmpdir, "flags.yaml")
+            with open(fpath, "w") as fh:
+                yaml.safe_dump(tuples_to_lists(first_valid_sc[0]), fh, sort_keys=False)
+            for own, what in C.entry_point_flags(lambda **kw: nasim.load(fpath, **kw), "nasim.load"):
+                # seen from the loader's side: the environment nasim.load returns is not the one that was asked for
+                res["findings"].append(dict(property="C17", kind="failing-input", what=what,
+                                            replay=dict(kind="entry-point", document=first_valid_sc[0], what=what)))
         # end-to-end: the environment built from a loaded file behaves like the model on it
         if first_valid_sc is not None:
             import suite_dyn
